@@ -139,6 +139,7 @@ func (r *apiRequest) IdleHandler() {
 		} else {
 			// Block until we've fully resolved something.
 			resolution := <-r.asyncResolutions
+			verifAsync("recv", resolution.Dest)
 			resolution.Dest <- resolution.Result
 			if _, ok := r.chainedAsyncResolutions[resolution.Dest]; ok {
 				delete(r.chainedAsyncResolutions, resolution.Dest)
@@ -150,6 +151,7 @@ func (r *apiRequest) IdleHandler() {
 		for {
 			select {
 			case resolution := <-r.asyncResolutions:
+				verifAsync("drain", resolution.Dest)
 				resolution.Dest <- resolution.Result
 			default:
 				return
@@ -172,6 +174,7 @@ func chain(ctx context.Context, p graphql.ResolvePromise, f func(interface{}) (i
 		apiRequest.chainedAsyncResolutions = map[graphql.ResolvePromise]struct{}{}
 	}
 	apiRequest.chainedAsyncResolutions[p] = struct{}{}
+	verifAsync("chain", p)
 	return Go(ctx, func() (interface{}, error) {
 		result := <-p
 		if !isNil(result.Error) {
@@ -189,6 +192,7 @@ func join(ctx context.Context, p []graphql.ResolvePromise, f func([]interface{})
 	for _, p := range p {
 		apiRequest.chainedAsyncResolutions[p] = struct{}{}
 	}
+	verifAsync("join", p...)
 	return Go(ctx, func() (interface{}, error) {
 		values := make([]interface{}, len(p))
 		for i, p := range p {
@@ -213,6 +217,7 @@ func Go(ctx context.Context, f func() (interface{}, error)) graphql.ResolvePromi
 	}
 	done := apiRequest.done
 	ch := make(graphql.ResolvePromise, 1)
+	verifAsync("go", ch)
 	go func() {
 		v, err := f()
 		result := graphql.ResolveResult{
@@ -227,6 +232,7 @@ func Go(ctx context.Context, f func() (interface{}, error)) graphql.ResolvePromi
 		case <-done:
 			// The execution returned without waiting for this result. Nothing else will ever send to
 			// ch, so deliver directly in case a chained resolution is still waiting on it.
+			verifAsync("released", ch)
 			ch <- result
 		}
 	}()
